@@ -130,10 +130,10 @@ Proof.
 Qed.
 
 (* declared annotations (forward references at the leaves) resolve into the supported grammar, to the class they name *)
-Lemma resolve_wf p ns t : wf_ann t = true -> leaf_ok p t = true -> locals_in ns t = true ->
+Lemma resolve_wf p ns t : wf_ann t = true -> leaf_ok p t = true -> locals_res p ns t ->
   exists rt, resolve p ns (fun n => n) t = Ok rt /\ wf_ty rt = true /\ forall d, about rt d = about t d.
 Proof.
-  unfold locals_in. intros W L Hl.
+  unfold locals_res. intros W L Hl.
   destruct t as [b|c'|e|a|k a|a|n'|a|a|k v|o| |n'|pp u1 u2]; try discriminate W;
     try (eexists; split; [reflexivity|]; split; [exact W | reflexivity]);
     try (unfold leaf_ok in L; cbn in L; cbn in Hl; cbn; try rewrite Hl; unfold resolve_name;
@@ -146,7 +146,7 @@ Proof.
     eexists; split; try reflexivity; split; reflexivity.
 Qed.
 
-Theorem classify_declared : forall p ns t d df, wf_ann t = true -> leaf_ok p t = true -> locals_in ns t = true ->
+Theorem classify_declared : forall p ns t d df, wf_ann t = true -> leaf_ok p t = true -> locals_res p ns t ->
   exists rt, resolve p ns (fun n => n) t = Ok rt /\
     kinds_of {| resolved_type := rt; has_default := d; has_default_factory := df |} = Ok (spec_kind rt) /\
     forall c, about rt c = about t c.
